@@ -32,6 +32,13 @@ def gen_program(rng, features=None, n_nodes=None, n_modules=None):
         kind = rng.choice(["int", "list", "dict", "str", "float", "bool", "none"])
         glob.append({"id": gi, "name": "G%d" % gi, "module": rng.randrange(n_modules), "kind": kind,
                      "value": _gval(kind, 1)})
+    if rng.random() < F.get("p_badglobal", 0.25):
+        # a container the codec cannot encode (a set inside a list, a tuple as dictionary key): the library does not track
+        # it, so it is never edited; functions read only its length.  It sits next to containers of the same type that ARE
+        # tracked.
+        kind = rng.choice(["badlist", "baddict"])
+        glob.append({"id": len(glob), "name": "GB", "module": rng.randrange(n_modules), "kind": kind,
+                     "value": {"badlist": 2, "baddict": 1}[kind], "src": {"badlist": "[1, {1}]", "baddict": "{(1, 2): 3}"}[kind]})
     nodes = []
     for i in range(n_nodes):
         # node 0 is always an auto-versioned memento root in module 0
@@ -67,6 +74,8 @@ def gen_program(rng, features=None, n_nodes=None, n_modules=None):
             nd["kwdef"] = 1
         if rng.random() < F.get("p_recur", 0.15):
             nd["recur"] = True
+        if rng.random() < 0.5:
+            nd["declobj"] = True    # (only matters if the function declares dependencies)
         for g in glob:
             if nd.get("noauto"):
                 break
@@ -247,6 +256,13 @@ def declared_first(prog, order):
     return order
 
 
+def cell_order(prog, units):
+    """The order in which a user re-runs the cells of the given units: variables, then definitions by position, then
+    aliases / wrappers - with every caller of a declared dependency behind its callee."""
+    ordk = {"g": 0, "b": 0, "i": 0, "n": 1, "a": 2, "w": 2}
+    return declared_first(prog, sorted((tuple(u) for u in units), key=lambda u: (ordk[u[0]], u[1])))
+
+
 def default_order(prog, mi):
     us = units_of(prog, mi)
     # aliases must follow their target's definition
@@ -288,6 +304,8 @@ def header(prog, mi, base=None):
 
 def render_global(prog, gid):
     g = prog["globals"][gid]
+    if g.get("src"):
+        return "%s = %s\n" % (g["name"], g["src"])
     return "%s = %s\n" % (g["name"], repr(g["value"]))
 
 
@@ -387,7 +405,10 @@ def render_node(prog, nid, decorator="m.memento_function"):
             args.append("auto_dependencies=False")
         decl = [prog["nodes"][c["to"]]["name"] for c in nd["calls"] if c["form"] == "declared"]
         if decl:
-            args.append("dependencies=[%s]" % ", ".join('"%s"' % d for d in decl))
+            # (as strings naming the functions, or as the function objects themselves - the library keeps "module:name")
+            byobj = set(prog["nodes"][c["to"]]["name"] for c in nd["calls"] if c["form"] == "declared" and nd.get("declobj")
+                        and prog["nodes"][c["to"]]["kind"] == "memento")
+            args.append("dependencies=[%s]" % ", ".join(('%s' if d in byobj else '"%s"') % d for d in decl))
         lines.append("@%s%s" % (decorator, "(%s)" % ", ".join(args) if args else ""))
     lines.append("def %s(%s):" % (nd["name"], ", ".join(params)))
     lines.append('    __vtrace__("%s", x)' % nd["name"])
@@ -427,7 +448,8 @@ def render_node(prog, nid, decorator="m.memento_function"):
         items.append('f"p{x}q%d"' % nd["fstr"])
     for gid in nd["globals"]:
         g = prog["globals"][gid]
-        items.append(g["name"] if g["module"] == nd["module"] else "%s.%s" % (mod_alias(g["module"]), g["name"]))
+        ref = g["name"] if g["module"] == nd["module"] else "%s.%s" % (mod_alias(g["module"]), g["name"])
+        items.append("len(%s)" % ref if g.get("src") else ref)
     for c in nd["calls"]:
         items.append(call_expr(prog, nd, c))
     for j in nd.get("fparams") or []:
@@ -698,6 +720,8 @@ def gen_edit(rng, prog, counter, weights=None):
             return {"kind": kind, "node": nd["id"], "value": v}
         if kind == "global" and prog["globals"]:
             g = prog["globals"][rng.randrange(len(prog["globals"]))]
+            if g.get("src"):
+                continue
             how = rng.choice(["rebind", "rebind", "mutate"]) if g["kind"] in ("list", "dict") else "rebind"
             return {"kind": "global", "gid": g["id"], "value": bump_global(g, v) if how == "rebind" else None,
                     "how": how, "n": v}
@@ -742,6 +766,12 @@ def gen_edit(rng, prog, counter, weights=None):
             # a recursive function: its own definition would be decorated while its name is bound to the untracked object)
             declared_target = any(c["to"] == nd["id"] and c["form"] == "declared" for a in nodes for c in a["calls"]) \
                 or in_cycle(prog, nd["id"])
+            if nd["kind"] == "memento" and any(a.get("declobj") and reaches(prog, nd["id"], a["id"]) and any(
+                    c["to"] == nd["id"] and c["form"] == "declared" for c in a["calls"]) for a in nodes):
+                # the function is named as an OBJECT in dependencies=[...] of a caller it calls back: once it is plain the
+                # caller cannot even be redefined (its old definition, still bound while the decorator runs, is reached
+                # through the plain function and its declared dependency no longer names a memento function) - see DESIGN 9.7
+                continue
             if nd["kind"] == "memento":
                 to = "plain" if r < 0.7 or declared_target else "foreign"
             elif nd["kind"] == "plain":
@@ -760,6 +790,8 @@ def gen_edit(rng, prog, counter, weights=None):
             e = ex[rng.randrange(len(ex))]
             return {"kind": "const", "node": e["id"], "value": v}
         if kind == "toggle_recur":
+            if nd["kind"] == "foreign":
+                continue    # (same exclusion as in swap_kind: a recursive definition decorated while its name is untracked)
             return {"kind": "toggle_recur", "node": nd["id"], "value": not nd["recur"]}
         if kind == "insert_helper":
             cands = [(a["id"], c["to"]) for a in nodes for c in a["calls"] if c["form"] in ("bare", "attr")
@@ -860,6 +892,11 @@ def apply_edit(prog, e):
                         if c["to"] == nd["id"] and c["form"] == "declared":
                             c["form"] = "bare"       # a declared dependency must resolve to something the library can hash
                             touched.add(("n", a["id"]))
+            # a caller that names this function as an object in dependencies=[...] names it as a string while it is plain (the
+            # library accepts only memento functions as objects): its text changes either way
+            for a in nodes:
+                if a.get("declobj") and any(c["to"] == nd["id"] and c["form"] == "declared" for c in a["calls"]):
+                    touched.add(("n", a["id"]))
             if nd["kind"] in ("plain", "foreign"):
                 nd["explicit"] = None
                 nd["salt"] = None
